@@ -43,6 +43,9 @@ func c19Header(it inodeType, typeBits os.FileMode, body inodeBody) {
 	index := vp.U32("inodeNumber")
 	h := &inodeHeader{inodeType: it, mode: mode, uidIdx: uidIdx, gidIdx: gidIdx, modTime: time.Unix(sec, 0), index: index}
 	b := h.toBytes()
+	if special {
+		vp.Cover("setuid/setgid/sticky set")
+	}
 	vp.Assert(len(b) == 16, "header is 16 bytes")
 	vp.Assert(c19le16(b, 0) == uint16(it), "inode type field")
 	vp.AssertUnless("KF-C19-1", special, c19le16(b, 2) == unix, "permissions field = rwx bits | 04000 setuid | 02000 setgid | 01000 sticky")
@@ -74,9 +77,6 @@ func c19Header(it inodeType, typeBits os.FileMode, body inodeBody) {
 		}
 	}
 	vp.Assert(st.Inode == index, "StatT.Inode")
-	if special {
-		vp.Cover("setuid/setgid/sticky set")
-	}
 	if sec >= 1<<31 {
 		vp.Cover("mtime after 2038")
 	}
